@@ -1068,41 +1068,64 @@ func (u *Unit) evalCall(env *SpecEnv, x *ast.CallExpr) SV {
 		q := fmt.Sprintf("(forall ((q!seqi Int)) (! (=> (and (<= 0 q!seqi) (< q!seqi (slen %s))) (= %s %s)) :pattern (%s) :pattern (%s)))", sa.S, ea.S, eb.S, ea.S, eb.S)
 		return SV{V: And(Eq(app(SInt, "slen", sa), app(SInt, "slen", sb)), T{q, SBool}), Typ: boolT}
 	}
-	if name == "arrayOf" && len(x.Args) >= 2 {
+	if (name == "arrayOf" && len(x.Args) >= 2) || (name == "arrayOf2" && len(x.Args) >= 3) {
 		// arrayOf(DEF, keysort, args...): the array A with A[k] == DEF(args..., k)
+		// arrayOf2(DEF, ks1, ks2, args...): A[k1][k2] == DEF(args..., k1, k2)
 		// (an array comprehension: one constant per distinct defining term)
+		nk := 1
+		if name == "arrayOf2" {
+			nk = 2
+		}
 		did, _ := x.Args[0].(*ast.Ident)
-		kid, _ := x.Args[1].(*ast.Ident)
-		if did == nil || kid == nil {
-			return env.fail("arrayOf(DEF, keysort, args...)")
+		if did == nil {
+			return env.fail("%s(DEF, keysort..., args...)", name)
 		}
 		d, ok := u.eng.spec.Defs[did.Name]
 		if !ok || len(d.Params) != len(x.Args)-1 {
-			return env.fail("arrayOf: %s must be a def with %d parameters", did.Name, len(x.Args)-1)
+			return env.fail("%s: %s must be a def with %d parameters", name, did.Name, len(x.Args)-1)
 		}
-		ks, kt := u.qvarSort(kid.Name)
 		n := *env
 		n.names = map[string]SV{}
 		for k, v := range env.names {
 			n.names[k] = v
 		}
-		for i := 2; i < len(x.Args); i++ {
-			n.names[d.Params[i-2]] = arg(i)
+		for i := 1 + nk; i < len(x.Args); i++ {
+			n.names[d.Params[i-1-nk]] = arg(i)
 		}
-		kv := T{"q!ak", ks}
-		n.names[d.Params[len(d.Params)-1]] = SV{V: kv, Typ: kt}
+		var kss []Sort
+		var kvs []T
+		for j := 0; j < nk; j++ {
+			kid, _ := x.Args[1+j].(*ast.Ident)
+			if kid == nil {
+				return env.fail("%s: key sort expected", name)
+			}
+			ks, kt := u.qvarSort(kid.Name)
+			kv := T{fmt.Sprintf("q!ak%d", j), ks}
+			if nk == 1 {
+				kv = T{"q!ak", ks}
+			}
+			n.names[d.Params[len(d.Params)-nk+j]] = SV{V: kv, Typ: kt}
+			kss = append(kss, ks)
+			kvs = append(kvs, kv)
+		}
 		n.bound = map[string]SV{}
 		for k, v := range env.bound {
 			n.bound[k] = v
 		}
 		body := u.evalSE(&n, d.Body)
 		bt := u.lower(env.st, body.V, body.Typ)
-		key := "arrayOf:" + did.Name + ":" + bt.S
+		key := name + ":" + did.Name + ":" + bt.S
 		if c, ok := u.arrayOfCache[key]; ok {
 			return SV{V: c}
 		}
-		c := u.fresh("arr."+did.Name, ArrSort(ks, bt.Sort))
-		u.decls.Add("def:"+c.S, fmt.Sprintf("(assert (forall ((q!ak %s)) (! (= (select %s q!ak) %s) :pattern ((select %s q!ak)))))", ks, c.S, bt.S, c.S))
+		if nk == 1 {
+			c := u.fresh("cmp."+did.Name, ArrSort(kss[0], bt.Sort))
+			u.decls.Add("def:"+c.S, fmt.Sprintf("(assert (forall ((q!ak %s)) (! (= (select %s q!ak) %s) :pattern ((select %s q!ak)))))", kss[0], c.S, bt.S, c.S))
+			u.arrayOfCache[key] = c
+			return SV{V: c}
+		}
+		c := u.fresh("cmp."+did.Name, ArrSort(kss[0], ArrSort(kss[1], bt.Sort)))
+		u.decls.Add("def:"+c.S, fmt.Sprintf("(assert (forall ((q!ak0 %s) (q!ak1 %s)) (! (= (select (select %s q!ak0) q!ak1) %s) :pattern ((select (select %s q!ak0) q!ak1)))))", kss[0], kss[1], c.S, bt.S, c.S))
 		u.arrayOfCache[key] = c
 		return SV{V: c}
 	}
